@@ -17,6 +17,10 @@ def classify(res):
     if where == "aggregator":
         return "aggregator rejects the Jacobian", "aggregator"
     decs = [e for e in res.events if e["kind"] == "decision" and not e.get("forced")]
+    from . import _pipe as _p
+
+    if _p.overlap_rejection(res):
+        return "shared/task parameter overlap", "argument"
     if decs:
         org = {o for c in decs[-1]["compares"] for o in c.get("origins", [])}
         if "parallel_chunk_size" in org:
